@@ -20,8 +20,9 @@ MAIN_LENS = [10, 20, 30]
 
 
 def nat(name):
-    """independent numeric-aware key (names in this scope contain no roman numerals)"""
-    return tuple(int(x) if i % 2 else x for i, x in enumerate(re.split(r"(\d+)", name)))
+    """independent numeric-aware key: digit runs and the numerals I-IV compare by value"""
+    roman = {"I": 1, "II": 2, "III": 3, "IV": 4}
+    return tuple((roman[x] if x in roman else int(x)) if i % 2 else x for i, x in enumerate(re.split(r"(\d+|IV|I{1,3})", name)))
 
 
 NOT_HAP = {"Painted", "Target", "Primary", "Contaminant", "Cut", "FalseDuplicate", "Haplotig", "Singleton", "Unloc"}
@@ -126,6 +127,7 @@ class C10(Check):
                     out.append(("single", n, ci // 5, tier))
         out.append(("many", 0))
         out.append(("gapped", 0))
+        out.append(("tagpairs", 0))
         for pairs in range(1, b["two_hap_pairs"] + 1):
             for hp in range(3):
                 for fl in MAIN_LENS:
@@ -148,6 +150,19 @@ class C10(Check):
         except Exception as e:  # noqa: BLE001
             ctx.count("did_not_complete_" + type(e).__name__)
             return
+        # the same map with the prefix assigned through the property after construction, and the fused assemblies
+        # requested twice from that object: names and order must be the same every time
+        try:
+            ba2, out2, _ = pv.remap(inp, pvspec, prefix=prefix, prefix_via_setter=True)
+            first = {k: [s.name for s in a.scaffolds] for k, a in out.items()}
+            via_setter = {k: [s.name for s in a.scaffolds] for k, a in out2.items()}
+            if via_setter != first:
+                ctx.violation("names-depend-on-how-the-prefix-was-given", case, f"constructor {first!r} setter {via_setter!r}")
+            again = {k: [s.name for s in a.scaffolds] for k, a in ba2.assemblies_with_scaffolds_fused().items()}
+            if again != first:
+                ctx.violation("names-differ-on-second-request", case, f"first {first!r} second {again!r}")
+        except Exception as e:  # noqa: BLE001
+            ctx.violation(f"setter-or-second-request-raises:{type(e).__name__}", case, repr(e))
         painted = [s for s in scaffolds if any("Painted" in p[4] for p in s[1])]
         if len(painted) >= 2 or any("Unloc" in p[4] or "Haplotig" in p[4] for s in scaffolds for p in s[1]):
             ctx.nontrivial += 1
@@ -390,6 +405,19 @@ class C10(Check):
                                         self.run_case(inp, scaffolds, prefix, ctx)
             inp, scaffolds, _ = build_case((20,) * n, confs_all[block * 5], None, None, 1, False)
             ctx.sample({"input": pv.jsonable(inp), "pretext": pv.jsonable((1.0, scaffolds)), "prefix": "SUPER_"})
+        elif kind == "tagpairs":
+            # two name-tagged chromosomes in one assembly whose tags are related (one is a prefix of the other), with unlocs
+            for t1, t2 in (("I", "I_II"), ("X", "X1"), ("B", "B1"), ("II", "I"), ("X1", "X")):
+                for confs in itertools.product(CHR_CONF[:3], repeat=2):
+                    for lens in ((30, 20), (20, 30)):
+                        for order in (0, 1):
+                            inp, scaffolds, _ = build_case(lens, confs, None, None, 0, False)
+                            tags = (t1, t2) if order == 0 else (t2, t1)
+                            new = []
+                            for (n, ps), t in zip(scaffolds, tags):
+                                new.append((n, tuple((p[0], p[1], p[2], p[3], p[4] + (t,)) for p in ps)))
+                            self.run_case(inp, tuple(new), "SUPER_", ctx)
+            ctx.sample({"tagpairs": "two name-tagged chromosomes with related tags (I / I_II, X / X1, B / B1)"})
         elif kind == "gapped":
             # chromosomes whose order by bases differs from their order by gapped span
             for n in (2, 3):
